@@ -78,7 +78,7 @@ SumD(msgs, d) ==
   SumOver(P, [p \in P |-> msgs[p[1]].coins[p[2]].a])
 
 \* re-entrant calls: the proxy is asked to call one of its own administrative entry points
-SelfKinds == {"self_update_admins", "self_freeze", "self_increase", "self_set_perm"}
+SelfKinds == {"self_update_admins", "self_freeze", "self_increase", "self_set_perm", "self_execute"}
 HasSelf(msgs) == \E i \in 1..Len(msgs) : msgs[i].k \in SelfKinds
 
 \* staking / distribution messages matching the permission flags (cw1-subkeys)
@@ -102,6 +102,8 @@ Authorised(by, msgs) ==
      /\ by \in Addr
      /\ \A i \in 1..Len(msgs) : msgs[i].k = "send" \/ PermCovers(perm[by], msgs[i])
      /\ HasSend(msgs) => al[by].has /\ \A d \in Denom : SumD(msgs, d) <= al[by].c[d]
+  \* (an account outside the tracked keys - the proxy's own address as caller - holds no grants: only the empty list)
+  \/ flavour = "subkeys" /\ by \notin Addr /\ msgs = <<>>
 
 GrantActs == {"increase_allowance", "decrease_allowance", "set_permissions"}
 AllowanceActs == {"increase_allowance", "decrease_allowance"}
@@ -119,6 +121,10 @@ Rem(a, k, d) == a[k].c[d]
 C07_RelayOnlyAuthorised == Step /\ E.act \in RelayActs /\ (Ok \/ E.ret) => Authorised(E.by, E.args.msgs)
 \* ... exactly as submitted: same messages, same order, nothing added, altered or dropped
 C07_RelayExact == Step /\ E.act \in RelayActs /\ Ok => out' = E.args.msgs
+\* a batch that the proxy is asked to relay to ITSELF arrives there with the proxy as caller, which is neither an
+\* admin nor a grant holder: the nested call fails, and with it the whole call (a "canq" dry run stops before
+\* relayed messages are dispatched, so only real Execute calls are concerned)
+C07_SelfExecuteRefused == Step /\ E.act = "execute" /\ (\E i \in 1..Len(E.args.msgs) : E.args.msgs[i].k = "self_execute") => ~Ok
 \* a failing call relays nothing and changes nothing
 C07_FailRelaysNothing == Step /\ ~Ok =>
   out' = <<>> /\ admins' = admins /\ mutable' = mutable /\ al' = al /\ perm' = perm
@@ -137,7 +143,7 @@ C08_SpendExact == Step /\ IsOk("execute") /\ E.by \notin admins /\ E.by \in Addr
   ELSE /\ al[k].has
        /\ \A d \in Denom : /\ al[k].c[d] >= SumD(out', d)
                            /\ al'[k].c[d] = al[k].c[d] - SumD(out', d)
-       /\ al'[k].has => al'[k].exp = al[k].exp
+       /\ al'[k].has /\ al'[k].exp = al[k].exp      \* spending deducts coins and nothing else: the deadline the admins set stays
 
 \* history: what a subkey relayed never exceeds what admins granted it, per denomination
 \* (slack = granted - relayed - reported remainder, inferred from the calls, see SlackAfter)
@@ -199,6 +205,8 @@ C17_AdminExact == Step /\ Ok =>
 \* frozen (or instantiated immutable) is forever
 C17_FrozenForever == Step /\ ~mutable => admins' = admins /\ mutable' = mutable
 \* allowances and permissions are created or altered only by calls of current admins
+\* installing the current code again (migrate) moves no authority: admins, the frozen flag and every grant stay
+C17_MigrateKeeps == Step /\ E.act = "migrate" => admins' = admins /\ mutable' = mutable /\ al' = al /\ perm' = perm /\ out' = <<>>
 C17_GrantsByAdmins == Step =>
   /\ Ok /\ E.act \in GrantActs => E.by \in admins
   /\ \A k \in Addr :
@@ -209,10 +217,12 @@ C17_GrantsByAdmins == Step =>
             Ok /\ E.act \in AllowanceActs /\ E.by \in admins /\ E.args.spender = k
        \* an Execute (whatever it relays, also to the proxy itself) can only consume the caller's own allowance
        /\ (al'[k] # al[k] /\ E.act = "execute") =>
-            Ok /\ E.by = k /\ \A d \in Denom : al'[k].c[d] <= al[k].c[d]
+            Ok /\ E.by = k /\ al'[k].exp = al[k].exp /\ \A d \in Denom : al'[k].c[d] <= al[k].c[d]
 \* an accepted instantiate installs exactly the requested admins and flag, and no grants
 C17_Init == E.act = "reset" /\ Ok =>
-  /\ admins' = SeqSet(E.cfg.admins) /\ mutable' = E.cfg.mutable
+  \* ("legacy": an admin a deployment of an older release recorded, in a spelling today's validation refuses)
+  /\ admins' = SeqSet(E.cfg.admins) \cup (IF "oldadmin" \in DOMAIN E.cfg /\ E.cfg.oldadmin THEN {"legacy"} ELSE {})
+  /\ mutable' = E.cfg.mutable
   /\ \A k \in Addr : al'[k] = NoAl /\ perm'[k] = NoPerm
 
 (***************************************************************************)
